@@ -8,7 +8,7 @@ import random
 import signal
 
 
-class _Timeout(Exception):
+class _Timeout(BaseException):      # not an Exception: the extractors' own `except Exception` must not swallow the alarm
     pass
 
 
@@ -51,6 +51,11 @@ def inputs(seed, repo):
     yield "garbage", b"garbage \x00\xff" * 40
     for label, data, _k in _container_mutations():
         yield label, data
+    # hostile record content inside a valid shell
+    for i, body in enumerate((b"hello \\'zz world", b"it\\'s", b"\\'}}", b"a\\u-1?b\\'4", b"{\\*\\x \\'q}" * 3, b"\\bin99999999 x", b"\\uc0\\u55357\\u56832")):
+        yield f"rtf:hostile-escape-{i}", b"{\\rtf1\\ansi " + body + b"}"
+    yield "zip:empty", b"PK\x05\x06" + b"\0" * 18
+    yield "mbox:blank", b"\n\n"
     files = sorted(glob.glob(os.path.join(repo, "sharepoint2text/tests/resources/*/*")))
     files = [f for f in files if os.path.isfile(f) and os.path.getsize(f) < 400_000]
     rnd.shuffle(files)
@@ -125,11 +130,55 @@ def hang_search(obligation, repo):
     return {"reproduced": False, "note": f"{tried} annotation-driven calls of {q} returned"}
 
 
+def hang_probe(repo, seed):
+    """Hostile inputs through the extractors in CHILD processes with a hard timeout: a SIGALRM handler is not a reliable way out of
+    a spinning loop (observed: CPython 3.12 did not run the handler in a `while` loop that `continue`s from an except block)."""
+    import subprocess
+    import sys
+    import tempfile
+    from sharepoint2text.parsing import router
+    cases = [(l, b) for (l, b) in inputs(seed, repo) if l.startswith(("rtf:", "zip:", "mbox:", "tar", "empty", "garbage"))]
+    code = ("import sys, io, importlib\n"
+            "sys.path.insert(0, sys.argv[1])\n"
+            "import logging; logging.disable(logging.CRITICAL)\n"
+            "f = getattr(importlib.import_module(sys.argv[2]), sys.argv[3])\n"
+            "data = open(sys.argv[4], 'rb').read()\n"
+            "try:\n"
+            "    for _ in f(io.BytesIO(data), sys.argv[5]):\n"
+            "        pass\n"
+            "except Exception:\n"
+            "    pass\n")
+    seen = set()
+    with tempfile.TemporaryDirectory() as d:
+        for label, data in cases:
+            kind = label.split(":")[0]
+            for k, (modpath, fn) in router._EXTRACTOR_REGISTRY.items():
+                if (modpath, fn) in seen and kind in ("empty", "garbage"):
+                    continue
+                if kind in ("rtf", "zip", "mbox") and not k.startswith(kind[:3]):
+                    continue
+                if kind.startswith("tar") and k not in ("tar", "tgz", "txz", "gz"):
+                    continue
+                seen.add((modpath, fn))
+                pth = os.path.join(d, "in.bin")
+                with open(pth, "wb") as fh:
+                    fh.write(data)
+                try:
+                    subprocess.run([sys.executable, "-c", code, repo, modpath, fn, pth, f"x.{k}"], timeout=45, capture_output=True, cwd=repo)
+                except subprocess.TimeoutExpired:
+                    return {"reproduced": True, "target": f"{modpath}.{fn}", "inputs": {"case": label, "as": k, "bytes": data[:80].decode("latin-1")},
+                            "expected": "terminates", "observed": "no result within 45 s (child process killed)"}
+    return None
+
+
 def find(req):
     repo = os.environ.get("VERIF_REPO", "/repo")
     if "/decreases#" in (req.get("obligation") or ""):
         r = hang_search(req["obligation"], repo)
         if r is not None and r.get("reproduced"):
+            return r
+        r = hang_probe(repo, int(os.environ.get("VERIF_SEED", "0") or 0))
+        if r is not None:
             return r
     from sharepoint2text.parsing import router
     from sharepoint2text.parsing.exceptions import ExtractionError
@@ -154,6 +203,8 @@ def find(req):
                 try:
                     for _ in f(bio, f"x.{k}"):
                         pass
+                    for _ in f(io.BytesIO(data)):          # path is optional: the documented call without a path
+                        pass
                     if bio.closed:
                         signal.alarm(0)
                         return {"reproduced": True, "target": f"{f.__module__}.{f.__name__}", "inputs": {"case": label, "as": k},
@@ -171,8 +222,37 @@ def find(req):
                             "expected": "ExtractionError family", "observed": f"{type(e).__name__}: {str(e)[:120]}"}
                 finally:
                     signal.alarm(0)
-    # CLI: exit 0 with output, or exit 1 with clean stdout and one stderr line
+    # read_file on real files: extractor results or the ExtractionError family (an input that yields nothing yields nothing)
     import tempfile
+    import sharepoint2text
+    if not target_fn or "read_file" in target_fn or "out-of-subset" in (req.get("obligation") or ""):
+        with tempfile.TemporaryDirectory() as d:
+            small = [(l, b) for (l, b) in inputs(seed, repo) if len(b) < 20000][:40]
+            for label, data in small:
+                for ext in ("zip", "tar", "mbox", "txt", "docx", "pdf", "rtf", "eml"):
+                    if ":" in label and label.split(":")[0] in ("zip", "mbox", "rtf") and not ext.startswith(label.split(":")[0][:3]):
+                        continue
+                    pth = os.path.join(d, f"f.{ext}")
+                    with open(pth, "wb") as fh:
+                        fh.write(data)
+                    tried += 1
+                    signal.alarm(20)
+                    try:
+                        for _ in sharepoint2text.read_file(pth):
+                            pass
+                    except ExtractionError:
+                        pass
+                    except _Timeout:
+                        signal.alarm(0)
+                        return {"reproduced": True, "target": "sharepoint2text.read_file", "inputs": {"case": label, "as": ext}, "expected": "terminates",
+                                "observed": "no result within 20 s"}
+                    except Exception as e:  # noqa
+                        signal.alarm(0)
+                        return {"reproduced": True, "target": "sharepoint2text.read_file", "inputs": {"case": label, "file_extension": ext, "bytes_hex_prefix": data[:64].hex()},
+                                "expected": "results or the ExtractionError family", "observed": f"{type(e).__name__}: {str(e)[:120]}"}
+                    finally:
+                        signal.alarm(0)
+    # CLI: exit 0 with output, or exit 1 with clean stdout and one stderr line
     from sharepoint2text import cli
     with tempfile.TemporaryDirectory() as d:
         cases = []
